@@ -270,6 +270,9 @@ def check_accepted(pair, L, v1, v2, count, T):
         q = math.log(d["total_expansion"]) / math.log(d["c2c_expansion"])
         if not abs((n - 1) - q) < 1 + 1e-9:
             bad.append(("count-not-nearest-to-logT/logr", f"n-1={n - 1}, log T/log r={q}"))
+        elif abs(q - round(q)) < 1e-9 and round(q) >= 1 and n - 1 != round(q):
+            # the two ratios fit a whole number of cells: that count reproduces both
+            bad.append(("exact-fit-count-off-by-one", f"total expansion = ratio^{round(q)} exactly ({round(q) + 1} cells reproduce both ratios), the result has {n} cells"))
         return bad
     if "c2c_expansion" in d:
         r = d["c2c_expansion"]
@@ -292,6 +295,9 @@ def check_accepted(pair, L, v1, v2, count, T):
                 bad.append(("coarser-than-requested", f"n={n}: cell {got} > requested {want}"))
             if fewer is not None and fewer < want * (1 - e_n):
                 bad.append(("more-cells-than-needed", f"n-1={n - 1} cells would already give {fewer} <= requested {want}"))
+            elif fewer is not None and n >= 3 and abs(fewer - want) <= 1e-12 * want:
+                # the requested size fits the edge exactly n-1 times: one cell fewer is not coarser than requested
+                bad.append(("exact-fit-one-cell-too-many", f"{n - 1} cells of exactly the requested size {want} fill the edge; the result has {n}"))
         return bad
     # total expansion is kept (given, or end/start)
     Tgiven = d.get("total_expansion", None)
@@ -310,6 +316,12 @@ def check_accepted(pair, L, v1, v2, count, T):
         bad.append(("coarser-than-requested", f"n={n}: cell {got} > requested {want}"))
     if fewer is not None and fewer < want * (1 - e_n):
         bad.append(("more-cells-than-needed", f"n-1={n - 1} cells would already give {fewer} <= requested {want}"))
+    elif fewer is not None and n >= 3 and (Tgiven == 1.0 or abs(Tgiven - 1.0) > 1e-6):
+        # (judged with the GIVEN total expansion, and not in the band around 1 where ratios are snapped to 1: cells that
+        # differ by 1e-9 do not fill the edge exactly)
+        fewer_given = sizes_nT(L, n - 1, Tgiven)[0 if "start_size" in d else 1]
+        if abs(fewer_given - want) <= 1e-12 * want:
+            bad.append(("exact-fit-one-cell-too-many", f"{n - 1} cells of exactly the requested size {want} fill the edge; the result has {n}"))
     return bad
 
 
